@@ -430,6 +430,13 @@ func (lb *LoadBalancer) AddBackend(backendCfg config.BackendConfig) error {
 		return err
 	}
 
+	// Backend names identify backends (removal, metrics, passive health): reject duplicates
+	for _, existing := range lb.strategy.GetBackends() {
+		if existing.Name == backendCfg.Name {
+			return fmt.Errorf("backend %s already exists", backendCfg.Name)
+		}
+	}
+
 	// Create a reverse proxy for this backend with optimized transport
 	proxy := httputil.NewSingleHostReverseProxy(backendURL)
 
